@@ -609,18 +609,20 @@ impl AssemblyCode {
                         AsmMnemonic::DEC | AsmMnemonic::INC => {
                             // The flags now describe the modified memory location
                             flags = FlagsState::Unknown;
+                            // This is a store: like STA, forget every memory operand
+                            // (the modified location can be named in another way: arr+1 / arr,X)
                             if let Some(v) = &accumulator {
-                                if v.eq(&inst.dasm_operand) {
+                                if !v.starts_with("#") {
                                     accumulator = None;
                                 }
                             }
                             if let Some(v) = &x_register {
-                                if v.eq(&inst.dasm_operand) {
+                                if !v.starts_with("#") {
                                     x_register = None;
                                 }
                             }
                             if let Some(v) = &y_register {
-                                if v.eq(&inst.dasm_operand) {
+                                if !v.starts_with("#") {
                                     y_register = None;
                                 }
                             }
@@ -711,11 +713,23 @@ impl AssemblyCode {
                         | AsmMnemonic::EOR
                         | AsmMnemonic::AND
                         | AsmMnemonic::ORA => accumulator = None,
-                        AsmMnemonic::LSR | AsmMnemonic::ASL => {
+                        AsmMnemonic::LSR | AsmMnemonic::ASL | AsmMnemonic::ROL | AsmMnemonic::ROR => {
                             flags = FlagsState::Unknown;
-                            accumulator = None
+                            accumulator = None;
+                            if !inst.dasm_operand.is_empty() {
+                                // Shift of a memory location: this is a store too
+                                if let Some(v) = &x_register {
+                                    if !v.starts_with("#") {
+                                        x_register = None;
+                                    }
+                                }
+                                if let Some(v) = &y_register {
+                                    if !v.starts_with("#") {
+                                        y_register = None;
+                                    }
+                                }
+                            }
                         }
-                        AsmMnemonic::ROL | AsmMnemonic::ROR => flags = FlagsState::Unknown,
                         AsmMnemonic::PLA | AsmMnemonic::PHA => accumulator = None,
                         AsmMnemonic::JSR | AsmMnemonic::JMP => {
                             flags = FlagsState::Unknown;
